@@ -561,7 +561,20 @@ def run(ck):
         {"file": "coq/Gen/UnsafeSites.v", "sites": len(g["sites"]), "source_sha": g["shas"]}]
     ck.obligation("translator: stack.rs pairings (impl StackItem, item_size, drop_top, guarded unchecked pops/reads) -> Gen/StackTables.v",
                   "translator", not g["problems"], "\n".join(g["problems"]))
-    ck.coq("Props.C18", clean=(ck.tier == "thorough"))
+    if ck.tier == "thorough":
+        # rebuild this property's part of the development from scratch (only its own files)
+        import glob
+        with core.Lock("coq"):
+            for pat in ("Mem/*.vo", "Mem/*.glob", "Mem/*.vok", "Mem/*.vos", "Props/C18*.vo", "Props/C18*.vok", "Props/C18*.vos",
+                        "Gen/StackTables.vo", "Gen/UnsafeSites.vo"):
+                for f in glob.glob(os.path.join(core.COQ, pat)):
+                    os.remove(f)
+    okc = ck.coq("Props.C18")
+    if ck.tier == "thorough" and okc:
+        t = time.time()
+        rcc, outc = core.sh(["timeout", "1500", "coqchk", "-silent", "-o", "-Q", core.COQ, "NV", "NV.Props.C18"], cwd=core.COQ, timeout=1600)
+        ck.coverage["coqchk_s"] = round(time.time() - t, 1)
+        ck.obligation("coqchk NV.Props.C18", "coqchk", rcc == 0, outc[-1500:])
     # 2. builds
     ok = build_harness(ck, hook)
     ck.model_exe = ck.model("C18.v")
